@@ -574,7 +574,8 @@ func c27Run(raw json.RawMessage) (res Result, err error) {
 			canonical = false
 		}
 	}
-	res.InDomain = dom && !zeroRows && sameShapes && canonical
+	// zero rows and mixed shapes are no longer guards (fixed in /repo): only the key class is left
+	res.InDomain = dom && canonical
 
 	// ---- property oracle on the implementation's outputs ----
 	// Inside the property's domain the conversion must either be refused with an error, or both
@@ -628,15 +629,8 @@ func c27Run(raw json.RawMessage) (res Result, err error) {
 			check("write-path ToColumnSeriesMap", obs.Dec)
 			check("query-path ToColumnSeriesMap", obs.Resp)
 		}
-		if !res.Holds {
-			switch {
-			case zeroRows:
-				res.Class = "zero-row-bucket"
-			case !sameShapes:
-				res.Class = "same-names-different-types"
-			case !canonical:
-				res.Class = "noncanonical-bucket-key"
-			}
+		if !res.Holds && !canonical {
+			res.Class = "noncanonical-bucket-key" // the only known finding class left
 		}
 	}
 	if !obs.FoldTie && res.Holds {
@@ -672,7 +666,7 @@ func c27Run(raw json.RawMessage) (res Result, err error) {
 		}
 	}
 	res.Tags = append(res.Tags, fmt.Sprintf("rows=%d", bucket(rows)))
-	res.Nontrivial = res.InDomain && len(bs) >= 2 && len(hs[0].names) >= 2
+	res.Nontrivial = res.InDomain && sameShapes && len(bs) >= 2 && len(hs[0].names) >= 2
 	res.Key = string(raw)
 	return res, nil
 }
@@ -685,7 +679,7 @@ func init() {
 		Rule: "0-4 buckets (0-5 thorough) sharing a base shape of 1-5 (1-6) columns over the 11 wire types (bool rarely), 1-5 rows per bucket (1-50 thorough, " +
 			"10% forced zero), per bucket 9% one type changed / 4% one name changed / 3% column count changed / 3% ragged columns; " +
 			"keys mostly SYM/1Min/OHLCV with default or explicit category, ~8% non-canonical (colon inside, zero value), 3% duplicate; " +
-			"distinct = distinct input JSON; non-trivial = inside the theorem's guard with >=2 buckets and >=2 columns",
+			"distinct = distinct input JSON; non-trivial = inside the theorem's domain, one shared shape, >=2 buckets and >=2 columns",
 		Gen: c27Gen,
 		Run: c27Run,
 	})
